@@ -251,6 +251,10 @@ func runC01(c *Ctx) {
 				var pk []dpkg
 				for j := 0; j < np; j++ {
 					t := genCallback(r, fileID)
+					if r.Chance(1, 3) {
+						more := moreCallbacks(r)
+						t = more[r.Intn(len(more))]
+					}
 					req := r.U32()
 					if len(reqs) > 0 && r.Chance(3, 4) {
 						req = gen.Pick(r, reqs)
